@@ -53,3 +53,15 @@
 (declare-fun rtComparable (Int) Bool)          ; reflect.Type.Comparable
 (declare-fun fIsInf (Int) Bool)   ; math.IsInf(f, 0) on a float value
 (declare-fun rvConvertOp (Int Int) Int)   ; reflect.Value.Convert of a value of statically unknown kind
+; reflect operations kept uninterpreted (C04 builtins: delegation with the operands in order)
+(declare-fun rvCap (Int) Int)
+(declare-fun rvAddrOp (Int) Int)
+(declare-fun rvAppendSliceOp (Int Int) Int)
+(declare-fun rvCopyOp (Int Int) Int)
+(declare-fun rvMapIndexOp (Int Int) Int)
+(declare-fun rvIndexOp (Int Int) Int)
+(declare-fun rvMapSet (Int Int Int) Int)
+(declare-fun rtPtrTo (Int) Int)
+(declare-fun rvValid (Int) Bool)   ; reflect.Value.IsValid
+(declare-fun slotOf2 (Int Int Int) Int)   ; the location valueGenerator(n, i) yields in frame f
+(declare-fun destValueOf (Int Int Int) Int)   ; what genDestValue(typ, n) yields in frame f
